@@ -1,1 +1,9 @@
 import Ypv.Props.C17
+#print axioms Ypv.C17.prewrite_exit_has_no_io
+#print axioms Ypv.C17.prewrite_exit_has_no_io_set
+#print axioms Ypv.C17.prewrite_exit_has_no_io_merge
+#print axioms Ypv.C17.set_nonzero_exit_phase
+#print axioms Ypv.C17.output_never_replaces_existing
+#print axioms Ypv.C17.backup_is_preimage
+#print axioms Ypv.C17.single_fault_keeps_original
+#print axioms Ypv.C17.single_fault_keeps_original_restore
